@@ -23,7 +23,7 @@ RULE = ('(a) every string up to length L over the 26-character driving alphabet 
         'offsets, fenced verbatim blocks with comments and continuation lines) and the exhaustive small-statement '
         'tier, each under every layout of the catalogue and random compositions; (c) mutants of those scripts (token '
         'deletion / duplication / swap, bracket insertion / removal, stray characters); (d) a dedicated stream of the '
-        'inputs behind the known findings; (e) fenced verbatim blocks of every shape (46 bodies incl. compound, dangling and '
+        'inputs behind the known findings; (f) left-hand sides of every shape (11 atoms x 6 joins x wrappers, up to three atoms), index texts of every shape (120 texts x 8 forms: signs, leading zeros, floats, exponents overflowing a double, inf/nan, 400- and 4301-digit integers, hex / underscores, quotes, backticks, nested brackets, Unicode digits), statements whose validity depends on the method context (global / nonlocal of the parameters of _evaluate), nesting near the compiler limits (15-24 and 93-102 levels) and very long chains / bracket nesting (20-5000); (e) fenced verbatim blocks of every shape (46 bodies incl. compound, dangling and '
         'module-level-only statements x 12 indentation / whitespace shapes x 3 contexts, fence-line variants). Around every '
         'parse_model / build_model / build_model_definition call the process-global state is snapshotted (cheap subset per '
         'call, full snapshot per batch and per call on the small streams). distinct = distinct input text; non-trivial = the text contains at least one '
@@ -124,7 +124,7 @@ def compare_texts(texts, rep, strict, stream):
                 rep.dist['disagreement:' + what] += 1
 
 
-FULL_STREAMS = ('findings', 'findings-wellformed', 'blocks', 'neighbourhood', 'replay')
+FULL_STREAMS = ('findings', 'findings-wellformed', 'blocks', 'index', 'index-unicode', 'neighbourhood', 'replay')
 
 
 def oracle_texts(texts, rep, stream, expect_accept=False):
@@ -341,6 +341,17 @@ def run(ctx, rep):
     import parse_timing as pt
     for fam in pt.FAMILIES:
         tasks.insert(0, ('c13:timing', [fam]))      # first: they run while the machine is least loaded by this check
+    stress = list(ts.stress_scripts(not quick))
+    for lo in range(0, len(stress), 12):
+        tasks.insert(0, ('c13:texts', ('stress', stress[lo:lo + 12], False, False, oo)))    # the slowest inputs first
+    lhs = list(ts.lhs_shape_scripts(not quick))
+    for lo in range(0, len(lhs), 1500):
+        tasks.append(('c13:texts', ('lhs', lhs[lo:lo + 1500], False, False, oo)))
+    index = list(ts.index_shape_scripts())
+    for lo in range(0, len(index), 100):
+        tasks.append(('c13:texts', ('index', index[lo:lo + 100], False, False, oo)))
+    # decimal digits / spaces above U+00FF: outside the model's domain (ASSUMPTIONS), oracle only
+    tasks.append(('c13:texts', ('index-unicode', list(ts.index_shape_scripts(ts.INDEX_TEXTS_UNICODE)), False, False, True)))
     blocks = [t for _, t in ts.block_scripts()]
     for lo in range(0, len(blocks), 120):
         tasks.append(('c13:texts', ('blocks', blocks[lo:lo + 120], False, False, oo)))
